@@ -469,9 +469,11 @@ set_global_assignment -name DISABLE_REGISTER_MERGING_ACROSS_HIERARCHIES OFF
 	 */
 	void IntelQuartus::workaroundEntityInOut08Bug(hlim::Circuit &circuit) const
 	{
-		for (const auto &node : circuit.getNodes()) {
+		// index loop: the body creates signal nodes, which invalidates iterators into the node list
+		for (auto idx : utils::Range(circuit.getNodes().size())) {
+			auto *node = circuit.getNodes()[idx].get();
 			for (auto outIdx : utils::Range(node->getNumOutputPorts())) {
-				hlim::NodePort driver{node.get(), outIdx};
+				hlim::NodePort driver{node, outIdx};
 
 				// Do two consumers exist which are both in different entities (which are also different from the producer).
 				utils::StableSet<hlim::NodeGroup*> nodeGroups;
@@ -521,7 +523,7 @@ set_global_assignment -name DISABLE_REGISTER_MERGING_ACROSS_HIERARCHIES OFF
 							}
 
 							dbg::log(dbg::LogMessage{centralEntity} << dbg::LogMessage::LOG_INFO << dbg::LogMessage::LOG_TECHNOLOGY_MAPPING 
-									<< "Applying workaround for intel quartus entity in out port signal incompatibilities to " << node.get() << " port " << outIdx << " by inserting " << signalNode << " in " << centralEntity);
+									<< "Applying workaround for intel quartus entity in out port signal incompatibilities to " << node << " port " << outIdx << " by inserting " << signalNode << " in " << centralEntity);
 						}
 						
 						prevEntity = centralEntity;
